@@ -397,6 +397,24 @@ func genTop(t *rapid.T) (*C10Top, bool) {
 			top.Kids = append(top.Kids, genLeaf(t))
 		}
 	}
+	if top.A != nil && rapid.IntRange(0, 2).Draw(t, "shareInArrays") == 0 {
+		// the record bound to a name is also referenced from slice fields (possibly twice in one
+		// slice); with the shuffled field order its first reference is then often an array element
+		if rapid.Bool().Draw(t, "shKids") {
+			for i := 0; i < rapid.IntRange(1, 2).Draw(t, "shKidsN"); i++ {
+				pos := rapid.IntRange(0, len(top.Kids)).Draw(t, "shKidsPos")
+				top.Kids = append(top.Kids[:pos:pos], append([]*C10Leaf{top.A}, top.Kids[pos:]...)...)
+			}
+			sharedUsed = true
+		}
+		if rapid.Bool().Draw(t, "shMany") {
+			for i := 0; i < rapid.IntRange(1, 2).Draw(t, "shManyN"); i++ {
+				pos := rapid.IntRange(0, len(top.Many)).Draw(t, "shManyPos")
+				top.Many = append(top.Many[:pos:pos], append([]C10Iface{top.A}, top.Many[pos:]...)...)
+			}
+			sharedUsed = true
+		}
+	}
 	if rapid.Bool().Draw(t, "twhen") {
 		top.When = time.Unix(int64(rapid.IntRange(1, 2000000000).Draw(t, "unix")), 0).UTC()
 	}
@@ -409,13 +427,16 @@ func genTop(t *rapid.T) (*C10Top, bool) {
 // the case ----------------------------------------------------------------------
 
 type c10Case struct {
-	Src     string            `json:"src"`     // record source text (the value under test is bound to r)
-	Prelude string            `json:"prelude"` // definitions of shared records
-	Raws    map[string][]byte `json:"raws"`
-	Times   map[string]int64  `json:"times"`
-	Want    string            `json:"want"` // %#v-free rendering of the expected Go value (see c10Show)
-	Shared  bool              `json:"shared"`
-	Neg     string            `json:"neg"` // "" | description of the planted defect (then an error is required)
+	Src       string            `json:"src"`     // record source text (the value under test is bound to r)
+	Prelude   string            `json:"prelude"` // definitions of shared records
+	Raws      map[string][]byte `json:"raws"`
+	Times     map[string]int64  `json:"times"`
+	Want      string            `json:"want"` // %#v-free rendering of the expected Go value (see c10Show)
+	Shared    bool              `json:"shared"`
+	ShareBp   bool              `json:"share_bp,omitempty"`
+	ShareKids []int             `json:"share_kids,omitempty"` // positions of top.Kids that are the shared record
+	ShareMany []int             `json:"share_many,omitempty"`
+	Neg       string            `json:"neg"` // "" | description of the planted defect (then an error is required)
 }
 
 // c10Show renders a Go value deterministically, following pointers (for comparison and reports)
@@ -558,8 +579,23 @@ func checkToGo(c c10Case) *ev.Failure {
 	}
 	if c.Shared {
 		top, ok := h.GoShadowStruct.(*C10Top)
-		if ok && top.A != top.Bp {
+		if ok && (c.ShareBp || len(c.ShareKids)+len(c.ShareMany) == 0) && top.A != top.Bp {
 			return mk("shared-record-copied", "a record referenced twice became two Go objects", "top.A == top.Bp", fmt.Sprintf("%p != %p", top.A, top.Bp))
+		}
+		if ok {
+			for _, i := range c.ShareKids {
+				if i >= len(top.Kids) || top.Kids[i] != top.A {
+					return mk("shared-record-copied-in-slice", "a record referenced from a field and from a slice element became two Go objects", fmt.Sprintf("top.Kids[%d] == top.A", i), fmt.Sprintf("%p", top.A))
+				}
+			}
+			for _, i := range c.ShareMany {
+				if i >= len(top.Many) {
+					return mk("shared-record-copied-in-slice", "slice of interfaces too short", fmt.Sprintf("top.Many[%d] == top.A", i), len(top.Many))
+				}
+				if l, isLeaf := top.Many[i].(*C10Leaf); !isLeaf || l != top.A {
+					return mk("shared-record-copied-in-slice", "a record referenced from a field and from an interface slice element became two Go objects", fmt.Sprintf("top.Many[%d] == top.A", i), fmt.Sprintf("%p vs %v", top.A, top.Many[i]))
+				}
+			}
 		}
 	}
 	return nil
@@ -707,7 +743,7 @@ func TestC10(t *testing.T) {
 	p := begin(t, "C10")
 	r := p.r
 	c10Register()
-	r.SetRule("togo: a Go value of the harness-registered struct types (C10Top with embedded C10Base, *C10Mid, *C10Leaf, interface-typed field, slice of interfaces, slice of struct pointers, time.Time; C10Mid with non-pointer struct field, []int64, []string, []byte, map[string]string, map[string]float64, json-tagged and untagged names) is generated first and rendered as record source (field order shuffled, zero fields omitted, one leaf record sometimes bound to a name and referenced twice); (togo r) must attach a Go struct that is DeepEqual (compared through a pointer-following rendering) to the generated value, with pointer identity for the shared record. negative: one undeclared field, or one value of the wrong kind (string/bool/array for an int field, int for a string or struct field, ...) planted at a random depth must make the script-level call fail - never succeed silently, never panic out of the library. echo: the record is passed to a Go method that returns it (*C10Mid, *C10Leaf, or the receiver); the result must be a record of the same type that converts to the same Go value. Non-trivial: nesting depth>=2 or interface/embedded/pointer field populated. Distinct by record text.")
+	r.SetRule("togo: a Go value of the harness-registered struct types (C10Top with embedded C10Base, *C10Mid, *C10Leaf, interface-typed field, slice of interfaces, slice of struct pointers, time.Time; C10Mid with non-pointer struct field, []int64, []string, []byte, map[string]string, map[string]float64, json-tagged and untagged names) is generated first and rendered as record source (field order shuffled, zero fields omitted, one leaf record sometimes bound to a name and referenced twice or more: from two pointer fields, from elements of the slice of struct pointers and of the slice of interfaces, also twice in one slice); (togo r) must attach a Go struct that is DeepEqual (compared through a pointer-following rendering) to the generated value, with pointer identity for the shared record. negative: one undeclared field, or one value of the wrong kind (string/bool/array for an int field, int for a string or struct field, ...) planted at a random depth must make the script-level call fail - never succeed silently, never panic out of the library. echo: the record is passed to a Go method that returns it (*C10Mid, *C10Leaf, or the receiver); the result must be a record of the same type that converts to the same Go value. Non-trivial: nesting depth>=2 or interface/embedded/pointer field populated. Distinct by record text.")
 	r.Assume("float-for-int fields are converted (truncation) by design and a record given for a string field is stored as text by design: neither is used as a negative case", "types are registered under a single name each (double registration is C20's subject)")
 
 	p.rapidSub("togo", ev.Scale(3000, 500000), func(t *rapid.T) {
@@ -718,6 +754,17 @@ func TestC10(t *testing.T) {
 			tmp := &c10Render{globals: rd.globals, shuffle: rd.shuffle}
 			c.Prelude = "(def sharedLeaf " + tmp.leaf(top.A) + ")"
 			rd.shared[top.A] = "sharedLeaf"
+			c.ShareBp = top.Bp == top.A
+			for i, k := range top.Kids {
+				if k == top.A {
+					c.ShareKids = append(c.ShareKids, i)
+				}
+			}
+			for i, k := range top.Many {
+				if l, ok := k.(*C10Leaf); ok && l == top.A {
+					c.ShareMany = append(c.ShareMany, i)
+				}
+			}
 		}
 		c.Src = rd.top(top)
 		c.Raws, c.Times = c10Globals(rd)
@@ -725,6 +772,12 @@ func TestC10(t *testing.T) {
 		labels, nt := c10Labels(top)
 		if shared {
 			labels = append(labels, "shared-record")
+			if len(c.ShareKids)+len(c.ShareMany) > 0 {
+				labels = append(labels, "shared-record-in-slice")
+			}
+			if len(c.ShareKids) > 1 || len(c.ShareMany) > 1 {
+				labels = append(labels, "shared-record-twice-in-one-slice")
+			}
 		}
 		r.Count("togo", ev.Hash64(c.Src, c.Prelude), nt, labels...)
 		if nt {
